@@ -60,6 +60,12 @@ class MySQLQueryBuilder(QueryBuilder):
         )
         return format_alias_sql("", self.alias, ctx)
 
+    def _apply_pagination(self, querystring: str, ctx: SqlContext) -> str:
+        if self._limit is None and self._offset is not None:
+            # MySQL has no OFFSET without LIMIT; the documented idiom is the largest BIGINT UNSIGNED
+            querystring += " LIMIT 18446744073709551615"
+        return super()._apply_pagination(querystring, ctx)
+
     def get_sql(self, ctx: SqlContext | None = None) -> str:
         ctx = ctx or MySQLQuery.SQL_CONTEXT
         querystring = super().get_sql(ctx)
